@@ -254,6 +254,16 @@ def correspond_stream(ctx, harness, ops, tag, label=None, shrink=True):
             toks = op.split()
             if len(toks) > 1:
                 ctx.cov["distribution"][toks[1] if toks[0] == "api" else toks[0]] = ctx.cov["distribution"].get(toks[1] if toks[0] == "api" else toks[0], 0) + 1
+    # direct check on the implementation alone: the logical keyspace before Close and after reopening
+    # must be identical (C11); independent of the model
+    for i, op in enumerate(ops):
+        if op == "close" and i >= 1 and i + 2 < len(ops) and ops[i - 1] == "ldump" and ops[i + 1] == "reopen" and ops[i + 2] == "ldump":
+            ctx.cov["reopen_cycles"] = ctx.cov.get("reopen_cycles", 0) + 1
+            if i + 2 < len(g) and g[i - 1] != g[i + 2] and g[i - 1].startswith(("ldump", "#")) and g[i + 2].startswith(("ldump", "#")):
+                record_violation(ctx, "reopen-differs", {"ops": ops[:i + 3], "impl": g[:i + 3], "model": m[:i + 3], "stream": label or tag,
+                                                         "faketime": "harness_ft" in harness,
+                                                         "explain": "the implementation's logical keyspace after Close + reopen differs from the one before Close (last and fourth-last line)"})
+                return 1
     d = first_diff(g, m, len(ops))
     if len(ctx.cov["samples"]) < 6 and len(ops) > 3:
         k = ctx.rng.randrange(1, len(ops) - 2)
